@@ -2101,6 +2101,11 @@ class Selector(SelectorBase, _SignatureSelector):
         """
         if val not in self.objects:
             self._objects.append(val)
+            if self.names:
+                # (objects declared with names: the new one joins the
+                # mapping too, under the name get_range() gives it)
+                for k, v in _named_objs([val]).items():
+                    self.names.setdefault(k, v)
 
     def get_range(self):
         """
